@@ -126,6 +126,10 @@ func c09(tier string) int {
 	// Fault leg: the table must still be the table after a storage failure
 	// (verdicts of fault-free requests judged from what is really stored).
 	runFaults(run, "C09", tier, false)
+	// Concurrent leg: the same checkpoint and old size submitted twice at once,
+	// with a correct and with a garbage proof / byte-identically: each request
+	// gets the verdict of ITS proof.
+	c05Concurrent(run, "C09", tier)
 	run.Set("states", totalStates)
 	run.Set("transitions", totalTrans)
 	run.Set("traces_validated_against_impl", totalTrans)
